@@ -603,14 +603,59 @@ theorem spread_via_func_value_regression :
     any operand position, results left in the call's own frame cells for an expression / nested call / statement, the bool
     result of a call used as a condition) and
     every number of results, result `i` of the host function lands in the cell the context reads. -/
-theorem result_routing_correct (c : Ctx) (nOut : Nat) : routeY E c nOut = routeSpec c nOut := by
+theorem result_routing_correct (c : Ctx) (hc : c.wf = true) (nOut : Nat) : routeY E c nOut = routeSpec c nOut := by
   unfold routeY routeSpec
   apply List.map_congr_left
   intro i _
-  cases c <;> simp [routeOneY, routeSpecOne, IExpr.eval, E, Expected.C07.facts]
+  cases c with
+  | ret pos nOps =>
+    have hb : E.returnBase = .zeroOrOwn := rfl
+    have hd : ∀ j b, E.returnDstIdx.eval j b = b + j := fun _ _ => rfl
+    simp only [Ctx.wf, decide_eq_true_eq] at hc
+    simp only [routeOneY, routeSpecOne, hb, hd]
+    by_cases h : nOps > 1
+    · simp [h]
+    · have : pos = 0 := by omega
+      simp [h, this]
+  | _ => simp [routeOneY, routeSpecOne, IExpr.eval, E, Expected.C07.facts]
 
-theorem result_routing_generated (c : Ctx) (nOut : Nat) : routeY Generated.C07.facts c nOut = routeSpec c nOut := by
-  rw [facts_tie]; exact result_routing_correct c nOut
+theorem result_routing_generated (c : Ctx) (hc : c.wf = true) (nOut : Nat) : routeY Generated.C07.facts c nOut = routeSpec c nOut := by
+  rw [facts_tie]; exact result_routing_correct c hc nOut
+
+theorem retAfterCalls_noWrite : ∀ (ops : List RetOperand) (p : Nat) (slots : List Rep), retAfterCalls false p ops slots = slots
+  | [], _, _ => rfl
+  | .call _ :: rest, p, slots => by simp [retAfterCalls, retAfterCalls_noWrite rest]
+  | .named _ :: rest, p, slots => by simp [retAfterCalls, retAfterCalls_noWrite rest]
+  | .other _ :: rest, p, slots => by simp [retAfterCalls, retAfterCalls_noWrite rest]
+
+/-- **A return statement whose operands include host calls** (`returnBase`, regenerated from callBin's aReturn arm; repair 28d3d87
+    of F04-23): for every list of operands — host calls, reads of the (named) result variables, anything else — and every content
+    of the result variables, each result gets the value of its operand evaluated against the result variables AS THEY WERE: a call
+    among several operands writes its own cell, so no other operand sees its result in a result variable. -/
+theorem return_operands_correct (ops : List RetOperand) (init : List Rep) :
+    retStmtY E.returnBase ops init = retStmtSpec ops init := by
+  have hb : E.returnBase = .zeroOrOwn := rfl
+  simp only [retStmtY, retStmtSpec, hb]
+  by_cases h : ops.length ≤ 1
+  · simp only [h, decide_true]
+    match ops, h with
+    | [], _ => rfl
+    | [.call v], _ => simp [retAfterCalls, RetOperand.value]
+    | [.named k], _ => simp [retAfterCalls]
+    | [.other v], _ => simp [retAfterCalls]
+  · simp only [h, decide_false]
+    rw [retAfterCalls_noWrite]
+
+theorem return_operands_generated (ops : List RetOperand) (init : List Rep) :
+    retStmtY Generated.C07.facts.returnBase ops init = retStmtSpec ops init := by
+  rw [facts_tie]; exact return_operands_correct ops init
+
+/-- regression F04-23 — `func f() (a, b string) { a, b = "x", "y"; return fmt.Sprint(b), a }`: with `b := childPos(n)` the call wrote
+    result variable `a` while the operands were evaluated, the second operand then read "y": y y instead of y x -/
+theorem return_clobber_regression :
+    retStmtY .childPos [.call (.int 2), .named 0] [.int 1, .int 2] = [.int 2, .int 2] ∧
+    retStmtY E.returnBase [.call (.int 2), .named 0] [.int 1, .int 2] = [.int 2, .int 1] ∧
+    retStmtSpec [.call (.int 2), .named 0] [.int 1, .int 2] = [.int 2, .int 1] := ⟨rfl, rfl, rfl⟩
 
 /-- the consumer of a nested call reads the cells the default context writes -/
 theorem nested_read_matches (fi j : Nat) :
@@ -619,7 +664,7 @@ theorem nested_read_matches (fi j : Nat) :
 
 /-- non-vacuity: `a, _, c := F()` -/
 example : routeY E (.assignX [false, true, false]) 3 = [(0, .lhs 0), (1, .dropped), (2, .lhs 2)] ∧
-    routeY E (.ret 1) 1 = [(0, .result 1)] ∧ routeY E (.deflt 7) 2 = [(0, .tmp 7), (1, .tmp 8)] := by decide
+    routeY E (.ret 1 2) 1 = [(0, .result 1)] ∧ routeY E (.ret 0 1) 2 = [(0, .result 0), (1, .result 1)] ∧ routeY E (.deflt 7) 2 = [(0, .tmp 7), (1, .tmp 8)] := by decide
 
 /-! ### `q, r := hp.F(…)` executed repeatedly, earlier variables still referenced -/
 
